@@ -50,6 +50,18 @@ pub fn judge(target: &str, data: &[u8]) -> Option<Verdict> {
         "total" => total_case(data).map(|s| c03::judge(&s)),
         "fmtdiff" => fmt_case(data).map(|s| c14::judge(&s)),
         "grammar" => grammar_case(data).map(|w| c01::judge_words(&w)),
+        "spell" => spell_case(data).map(|(leading, tree, choices)| {
+            // the oracles of C06 (variant == canonical) and C13 (options anywhere; parsed tree == written tree)
+            let guarded = if matches!(tree.leaves().first(), Some(E::G(_))) { E::and(E::T(Tst::Name("first".into())), tree.clone()) } else { tree.clone() };
+            match crate::checks::c06::judge(&guarded, &choices) {
+                Verdict::Fail(m) => return Verdict::Fail(format!("C06 oracle: {m}")),
+                _ => {}
+            }
+            match crate::checks::c13::judge(&leading, &Some(guarded), &choices) {
+                Verdict::Fail(m) => Verdict::Fail(format!("C13 oracle: {m}")),
+                o => o,
+            }
+        }),
         "policy" => policy_case(data).map(|c| match crate::checks::c02::judge(&c) {
             Verdict::Fail(m) => Verdict::Fail(format!("{m}\ncase: {}", crate::checks::c02::case_json(&c))),
             o => o,
@@ -68,7 +80,12 @@ pub const REPO_TEST_INPUTS: [&str; 34] = [
 
 pub fn make_corpora(seed: u64) -> i32 {
     use crate::util::{stable_hash, verif_dir};
+    // FFV_ONLY_CORPUS=<target>: (re)generate that corpus only (the others may hold merged campaign output)
+    let only = std::env::var("FFV_ONLY_CORPUS").ok();
     let write = |target: &str, items: Vec<Vec<u8>>| {
+        if only.as_deref().map(|o| o != target).unwrap_or(false) {
+            return;
+        }
         let dir = format!("{}/corpus/{target}", verif_dir());
         let _ = std::fs::remove_dir_all(&dir);
         let _ = std::fs::create_dir_all(&dir);
@@ -99,6 +116,8 @@ pub fn make_corpora(seed: u64) -> i32 {
         gr.push(t);
     }
     write("grammar", gr);
+    let sp: Vec<Vec<u8>> = crate::util::sample_values(seed, "corpus-spell-bytes", 0, 200, &proptest::collection::vec(proptest::prelude::any::<u8>(), 8..120));
+    write("spell", sp);
     let pol: Vec<Vec<u8>> = crate::util::sample_values(seed, "corpus-policy-bytes", 0, 150, &proptest::collection::vec(proptest::prelude::any::<u8>(), 8..160));
     write("policy", pol);
     0
@@ -264,6 +283,83 @@ impl<'a> Cur<'a> {
         f.writable = self.pick(2) == 0;
         f.executable = self.pick(2) == 0;
         f
+    }
+}
+
+/// bytes -> (leading options, tree over the whole text vocabulary, layout choices) for the `spell` target
+pub fn spell_case(data: &[u8]) -> Option<(Vec<Glob>, E, Vec<u16>)> {
+    if data.len() < 4 || data.len() > 400 {
+        return None;
+    }
+    let mut c = Cur { d: data, i: 0 };
+    let nlead = [0usize, 0, 0, 1, 2, 5][c.pick(6)];
+    let leading: Vec<Glob> = (0..nlead).map(|_| c.option()).collect();
+    let tree = c.text_tree(5);
+    if tree.node_count() > 40 {
+        return None;
+    }
+    // the rest of the bytes drive the layout (two bytes per choice)
+    let rest = &data[c.i.min(data.len())..];
+    let choices: Vec<u16> = rest.chunks(2).map(|ch| (ch[0] as u16) << 8 | *ch.get(1).unwrap_or(&0) as u16).take(80).collect();
+    Some((leading, tree, choices))
+}
+
+impl<'a> Cur<'a> {
+    fn option(&mut self) -> Glob {
+        match self.pick(6) {
+            0 => Glob::Depth,
+            1 => Glob::Threads(self.u32()),
+            2 => Glob::Threads([0u32, 1, 2, 4, 8][self.pick(5)]),
+            3 => Glob::Depth,
+            4 => Glob::Threads(self.u8() as u32),
+            _ => Glob::Threads(7),
+        }
+    }
+    fn word(&mut self) -> String {
+        const W: [&str; 40] = [
+            "a", "foo", "*.txt", "a b", "x)y", "it's", "say \"hi\"", "(", ")", "-print", "-o", "!", ",", "a\tb", "two  blanks", "'", "\"", "é x", "-", "%", "a(b", "$HOME", "~", ";#", "a,", "dir\\", "a,b",
+            "-a", "-and", "-name", "0", "١", "[ab]c", "]a[", "a\u{a0}b", "{}", "{mdt}", "%lf3:print:2", "/dev/stdout", "core",
+        ];
+        let mut w = W[self.pick(W.len())].to_string();
+        if self.pick(4) == 0 {
+            w.push_str(W[self.pick(W.len())]);
+        }
+        w
+    }
+    fn text_leaf(&mut self) -> E {
+        let k = self.pick(48);
+        match k {
+            0..=29 => self.leaf(),
+            30 => E::T(Tst::Name(self.word())),
+            31 => E::T(Tst::IPath(self.word())),
+            32 => E::T(Tst::Pool(self.word())),
+            33 => E::T(Tst::XattrMatch(self.word(), self.word())),
+            34 => E::A(Act::FPrint(self.word())),
+            35 => E::A(Act::FPrintf(self.word(), self.fmt())),
+            36 => E::T(Tst::U(UTest::Regex(self.word()))),
+            37 => E::T(Tst::U(UTest::User(self.word()))),
+            38 => E::T(Tst::U([UTest::NoUser, UTest::NoGroup][self.pick(2)].clone())),
+            39 => E::T(Tst::U(UTest::Samefile(self.word()))),
+            40 => E::A([Act::Ls, Act::Prune][self.pick(2)].clone()),
+            41 => E::A(Act::Fls(self.word())),
+            42 | 43 => E::G(self.option()),
+            44 => E::T(Tst::U(UTest::FsType(self.word()))),
+            45 => E::T(Tst::U(UTest::ILName(self.word()))),
+            46 => E::T(Tst::U(UTest::AccessNewer(self.word()))),
+            _ => E::T(Tst::Xattr(self.word())),
+        }
+    }
+    fn text_tree(&mut self, depth: usize) -> E {
+        if depth == 0 || self.i >= self.d.len() {
+            return self.text_leaf();
+        }
+        match self.pick(8) {
+            0 => E::not(self.text_tree(depth - 1)),
+            1 | 2 => E::and(self.text_tree(depth - 1), self.text_tree(depth - 1)),
+            3 => E::or(self.text_tree(depth - 1), self.text_tree(depth - 1)),
+            4 => E::list(self.text_tree(depth - 1), self.text_tree(depth - 1)),
+            _ => self.text_leaf(),
+        }
     }
 }
 
